@@ -255,15 +255,15 @@ Proof.
   { clear. intros l h h' Hn [p [q [E1 E2]]] [p' [q' [E1' E2']]]. subst h h'.
     assert (X : p = p' /\ q = q').
     { subst l. revert p' q' E1' Hn. induction p as [|a p IH]; intros p' q' E Hn.
-      - destruct p' as [|a' p']; cbn in E.
-        + inversion E. auto.
-        + inversion E; subst. exfalso. cbn in Hn. inversion Hn as [|? ? Hx _]. apply Hx. rewrite H1.
+      - destruct p' as [|a' p']; cbn [app] in E.
+        + injection E as Eq. subst. auto.
+        + injection E as Ea Eq. exfalso. cbn [app] in Hn. inversion Hn as [|? ? Hx _]. apply Hx. rewrite Eq.
           apply in_or_app. right. left. reflexivity.
-      - destruct p' as [|a' p']; cbn in E.
-        + inversion E; subst. exfalso. cbn in Hn. inversion Hn as [|? ? Hx _]. apply Hx.
+      - destruct p' as [|a' p']; cbn [app] in E.
+        + injection E as Ea Eq. exfalso. cbn [app] in Hn. inversion Hn as [|? ? Hx _]. apply Hx. subst a.
           apply in_or_app. right. left. reflexivity.
-        + inversion E; subst. cbn in Hn. inversion Hn as [|? ? _ Hn2].
-          destruct (IH p' q' H1 Hn2) as [-> ->]. auto. }
+        + injection E as Ea Eq. cbn [app] in Hn. inversion Hn as [|? ? _ Hn2].
+          destruct (IH p' q' Eq Hn2) as [-> ->]. subst. auto. }
     destruct X as [_ ->]. reflexivity. }
   rewrite E1, E2, (U idx h1 hi Hn N1 N), (U idx' h2 hi Hn' N2 N'). reflexivity.
 Qed.
